@@ -34,7 +34,21 @@ def Pr(op, a=0, b=0, c=0, v=0, w=0):
 
 
 # --------------------------------------------------------------------------- representation
+_QCACHE = {}
+
+
 def qsnap(x):
+    """Memoised _qsnap: equal floats share one (read-only) record, which keeps ten thousands of recorded traces small."""
+    x = float(x)
+    r = _QCACHE.get(x)
+    if r is None:
+        r = _qsnap(x)
+        if len(_QCACHE) < 200000:
+            _QCACHE[x] = r
+    return r
+
+
+def _qsnap(x):
     """float -> {'n','d','p'}: (n/d)*pi^p within relative 1e-9, or inexact (p = 9).  Near zero the
     relative test is floored at 1e-12 absolute (1e-9 of a millimetre / millisecond): sums like
     0.4 - 0.6 + 0.2 leave residues of 1e-17 that are 0 for every purpose of the property."""
